@@ -522,6 +522,8 @@ func vcIsDecimal(x interface{}) bool     { v, ok := x.(*Decimal); return ok && v
 func vcIsTimestamp(x interface{}) bool   { _, ok := x.(Timestamp); return ok }
 func vcIsSymbolToken(x interface{}) bool { v, ok := x.(*SymbolToken); return ok && v != nil }
 func vcIsType(x interface{}) bool        { _, ok := x.(Type); return ok }
+func vcIsSST(t SymbolTable) bool         { v, ok := t.(*sst); return ok && v != nil }
+func vcAsSST(t SymbolTable) *sst         { v, _ := t.(*sst); return v }
 func vcIsBinaryReader(r Reader) bool     { v, ok := r.(*binaryReader); return ok && v != nil }
 func vcAsBinaryReader(r Reader) *binaryReader {
 	v, _ := r.(*binaryReader)
